@@ -261,6 +261,24 @@ class CaseSpec:
                    disagreements=len(dis), flavours=fls, case_kinds=dist, step_distribution_sampled=opdist,
                    observation_distribution_sampled=obsdist, exhaustive=bool(self.exhaustive(tier)),
                    exhaustive_space=self.exhaustive(tier) or "")
+        if not dis and pr["ok"] and (tier == "thorough" or os.environ.get("VERIF_ORACLE_SELFTEST")):
+            # self-test of the failing-input oracles (diagnostic, never a verdict): on a tree where every theorem checks and the
+            # implementation agrees with the model, an independent oracle that rejects an observation is an oracle defect
+            t2 = time.time()
+            complaints = []
+            sample = [(c, fl) for c in cases for fl in fls if fl in FLAVOURS[c.cls]]
+            if len(sample) > 60000:
+                sample = sample[::len(sample) // 60000 + 1]
+            for c, fl in sample:
+                obs = "HANG" if c.name in results["hangs"][fl] else results[fl].get(c.name, [])
+                try:
+                    msg = self.oracle(c, fl, obs)
+                except Exception as e:   # an oracle that crashes is an oracle defect too
+                    msg = "oracle raised %r" % (e,)
+                if msg and not self.known(c, fl, msg):
+                    complaints.append((c.name, fl, msg))
+            cov["oracle_selftest"] = dict(observations=len(sample), complaints=len(complaints), first=[list(x) for x in complaints[:3]], wall_s=round(time.time() - t2, 1))
+            log("[%s] oracle self-test: %d observations, %d complaints%s" % (prop, len(sample), len(complaints), (" e.g. %s" % (complaints[0],)) if complaints else ""))
         if dis or not pr["ok"]:
             # failing-input search: the disagreeing cases first, then everything generated in this run
             found = []
@@ -875,6 +893,7 @@ class C19(CaseSpec):
             out += oc.gen_enumerated(cls, rng, tier)
             out += oc.gen_random(cls, rng, 3000 if tier == "thorough" else 150)
             out += oc.gen_lookup(cls, rng, 2000 if tier == "thorough" else 150)
+            out += oc.gen_twins(cls, rng, 1500 if tier == "thorough" else 120)
         return out
 
     def exhaustive(self, tier):
@@ -1137,6 +1156,7 @@ class C15(CaseSpec):
             out += cc.gen_untrusted(cls, r2, tier)[::(3 if not thorough else 1)]
             out += oc.gen_random(cls, r2, 60 if not thorough else 600)
             out += oc.gen_lookup(cls, r2, 40 if not thorough else 400)
+            out += oc.gen_twins(cls, r2, 30 if not thorough else 300)
             out += mu.gen_cases(cls, r2, tier)[::(40 if not thorough else 5)]
             # edge comparison traits
             steps = ["new 5 0", "new 3 1", "con 0 1 7", "con 0 1 8", "con 1 0 7", "con 0 0 7"]
